@@ -189,7 +189,7 @@ func (g *docGen) comment() string {
 // line emits one logical line (possibly opening a nested block).
 func (g *docGen) line(budget *int) {
 	*budget--
-	if !g.wonly && g.rng.Chance(1, 8) {
+	if g.rng.Chance(1, 8) {
 		g.sb.WriteString(g.indent() + g.comment())
 		g.nl()
 		return
@@ -238,7 +238,7 @@ func (g *docGen) line(budget *int) {
 			}
 		}
 	}
-	if !g.wonly && g.rng.Chance(1, 10) {
+	if (!g.wonly || !open) && g.rng.Chance(1, 10) {
 		g.sb.WriteString(g.ws() + g.comment())
 	}
 	g.nl()
